@@ -1,7 +1,9 @@
 (* C14 — Value-log truncation keeps everything at or after the cut readable.
    Only the property theorems, each closed by `exact`.  Model: Trunc/Model.v (a state machine
    whose steps are the critical sections of embedded/store: value append into ANY value log,
-   commit, abort, TruncateUptoTx, ExportTx, restart), tied to /repo by Tie/C14.v. *)
+   commit, abort, TruncateUptoTx, ExportTx, restart), tied to /repo by Tie/C14.v.  The boolean
+   `fixed` selects the ExportTx of the code before (false) / since (true) commit 7ccd103; the
+   truncation theorems hold for both, the export theorem is about the code as it is (true). *)
 From V Require Import Base.Bytes Trunc.Model Trunc.Lemmas Trunc.Safety Trunc.Theorems Trunc.Export.
 
 (* For EVERY reachable state — any number of committers whose value appends and commits interleave
@@ -45,9 +47,9 @@ Print Assumptions truncate_touches_only_value_logs.
    transaction then commits with an id ABOVE the cut and cannot be read. *)
 Theorem truncate_vs_stalled_writer_refuted :
   exists c ops id tx e, cfg_ok c = true /\ ops_bytes ops < two55 /\
-    s_cut (run_state false c ops) < id /\
-    get_tx (s_txs (run_state false c ops)) id = Some tx /\ In e tx /\
-    read_entry c (run_state false c ops) e = RdEOF.
+    s_cut (run_state true c ops) < id /\
+    get_tx (s_txs (run_state true c ops)) id = Some tx /\ In e tx /\
+    read_entry c (run_state true c ops) e = RdEOF.
 Proof. exact race_refuted. Qed.
 Print Assumptions truncate_vs_stalled_writer_refuted.
 
@@ -77,31 +79,20 @@ Theorem export_full_at_or_after_cut :
 Proof. exact export_full. Qed.
 Print Assumptions export_full_at_or_after_cut.
 
-(* "Every ExportTx returns (in full, by digest or with an error) and leaves the value mutex
-   free": REFUTED on the code as it is.  A truncated transaction with one non-empty and one empty
-   value makes ExportTx return "partially truncated transaction" with _valBsMux held; the next
-   ExportTx never returns. *)
-Theorem export_terminates_and_releases_refuted :
+(* For EVERY run of the code as it is (any history, truncations, races, restarts), every ExportTx
+   returns — in full, by digest or with an error, never waiting for a mutex nobody releases — and
+   leaves _valBsMux free. *)
+Theorem export_terminates_and_releases :
+  forall (c : cfg) (ops : list op), Forall export_fine (run_outs true c ops).
+Proof. exact export_fixed_ok. Qed.
+Print Assumptions export_terminates_and_releases.
+
+(* The defect repaired by 7ccd103, kept as a witness on the model of the code before it: a
+   truncated transaction with one non-empty and one empty value made ExportTx return "partially
+   truncated transaction" with _valBsMux held; the next ExportTx never returned. *)
+Theorem export_terminates_and_releases_refuted_before_7ccd103 :
   exists c ops, cfg_ok c = true /\ ops_bytes ops < two55 /\ quiescent false c ops = true /\
     In (UExport XErrPartial true) (run_outs false c ops) /\
     In (UExport XBlocked true) (run_outs false c ops).
 Proof. exact export_refuted. Qed.
-Print Assumptions export_terminates_and_releases_refuted.
-
-(* ... what holds of the code as it is: in every run in which no export has returned "partially
-   truncated transaction", every export returns and the mutex is free after each. *)
-Theorem export_terminates_and_releases_partial :
-  forall (c : cfg) (ops : list op),
-    forallb (fun u => negb (is_partial u)) (run_outs false c ops) = true ->
-    Forall export_fine (run_outs false c ops).
-Proof. exact export_partial_ok. Qed.
-Print Assumptions export_terminates_and_releases_partial.
-
-(* The full statement for the model of the code WITH fixes/C14-unlock.diff applied (unlock on both
-   early returns; `fixed = true` selects it in Trunc/Model.v export_loop): for every run every
-   ExportTx returns and leaves the mutex free.  This theorem is about the proposed repair, not
-   about the current tree; the correspondence check runs the unfixed model. *)
-Theorem export_terminates_and_releases_fixed_model :
-  forall (c : cfg) (ops : list op), Forall export_fine (run_outs true c ops).
-Proof. exact export_fixed_ok. Qed.
-Print Assumptions export_terminates_and_releases_fixed_model.
+Print Assumptions export_terminates_and_releases_refuted_before_7ccd103.
